@@ -256,7 +256,7 @@ theorem C08_status_reserved_independent (st : St) (md' : HMap) (h0 : HMap) (r : 
 /-! ## typed entries end to end -/
 
 /-- A map built with the typed API is exactly the accepted entries under their normalised
-names, in call order: nothing is merged, reordered or re-encoded. -/
+names, in call order: nothing is merged, reordered or re-encoded. (Transcription lemma: it holds by unfolding the model's definition, so it pins the model's shape for the correspondence run — its assurance about tonic is the tie, not this proof.) -/
 theorem C08_typed_build (es : List (Enc × Bytes × Bytes)) :
     buildTyped .fixed es = es.filterMap (storedEntry .fixed) :=
   buildTyped_eq .fixed es
